@@ -485,7 +485,7 @@ func genCase(r *hx.Rand) *tcase {
 	case 2:
 		tc.alpha = 0.5
 	case 3:
-		tc.alpha = hx.Pick(r, []float64{1, 2, 1e-9, -2, math.Copysign(0, -1), 0.2})
+		tc.alpha = hx.Pick(r, []float64{1, 1, 1, 2, 1e-9, -2, math.Copysign(0, -1), 0.2})
 	default:
 		tc.alpha = 0
 	}
